@@ -11,6 +11,7 @@ import OjgVerif.JPText.LemmasScript
 import OjgVerif.JPText.LemmasLeafy
 import OjgVerif.JPText.LemmasFilterExpr
 import OjgVerif.JPText.LemmasBracket
+import OjgVerif.JPText.LemmasBracketGen
 /-! # C14 — JSONPath and script text forms round-trip
 
 Model: `JPText/Print.lean` (the printers), `JPText/Parse.lean` (jp/parse.go), over the regenerated
@@ -423,6 +424,21 @@ text, the re-parsed expression prints in dot notation). Kernel evaluation. -/
 theorem bracket_box_exact :
     ((boxSeqs 1 ++ boxSeqs 2 ++ boxSeqs 3).all bexact && boxSeqs4.all bexact) = true := by
   rw [bracketBox_exact3, bracketBox_exact4]; rfl
+
+/-- **`String()` with flags, ANY length.** For every filter-free constructible expression without a named
+deviation (`Frag.okL`, `noFilter`, `devsExpr … = []` of the flag-free expression) carrying `Bracket` flags at any
+positions (before Root, in the middle, directly after a descent, last, repeated), in both text forms: the text is
+accepted and read as the flag-free expression (up to the normal form), and it re-prints identically EXACTLY when
+`bracketReprint` is false; for `String()` that predicate is structural (`flagMatters`): the round trip fails iff a
+token-like child or a descent stands somewhere after a flag (known finding C14-bracket-flag) — wildcards, quoted
+children, indexes, unions, slices after a flag are harmless. The general counterpart of `bracket_box_exact`
+(mixed-mode fragment loop `readExprLoop_b`, by induction). -/
+theorem bracket_flags_general (br : Bool) (x : BExpr) (hok : Frag.okL (stripB x) = true)
+    (hnf : noFilter (stripB x) = true) (hdev : devsExpr br (stripB x) = []) :
+    parseExpr (bexprPrint br x) = some (imgB br x) ∧ sameExpr (imgB br x) (stripB x) = true ∧
+    roundTripsBExpr br x = !bracketReprint br x ∧ bracketReprint false x = flagMatters false x := by
+  have hc := cleanExpr_of_spec br (stripB x) hok hnf hdev
+  exact ⟨parseExpr_bprint br x hc, sameExpr_imgB br x, roundTripsBExpr_iff br x hc, bracketReprint_false_eq x⟩
 
 /-- the flag has no text form: `R().B().C("a")` prints `$['a']`, which is read as `$.a` and printed so (known
 finding C14-bracket-flag); so C14 at full strength over API-built expressions WITH flags is false too -/
